@@ -355,6 +355,13 @@ func (r *Receiver) handleAnnounce(ctx context.Context, amsg Announce, resend boo
 }
 
 func (r *Receiver) announceCheck(amsg Announce) error {
+	// A closed receiver takes no announcements, whether allowed or not.
+	select {
+	case <-r.done:
+		return ErrClosed
+	default:
+	}
+
 	// Check callback to see if peer ID allowed.
 	if r.allowPeer != nil && !r.allowPeer(amsg.PeerID) {
 		return errSourceNotAllowed
